@@ -39,6 +39,42 @@ CONDS = ['x == @K', 'x > @K', 'n > @K', 'b', 'len(xs) > @K', 'not b and x < @K']
 FEATURES = gen.ALL_FEATURES - {'undef', 'try', 'raise', 'lambda', 'compr'}
 
 EXTRA = [
+    ('er:decorators_spanning_lines', '''def deco(*a, **k):
+  def wrap(fn):
+    return fn
+  return wrap
+
+@deco(
+    'leaf',
+    flag=True,
+)
+def leaf(p, q):
+  r = p - q
+  if r == 0:
+    raise UErr('leaf')
+  return r
+
+@deco('mid')
+# a comment between the decorator and the def
+
+def mid(p, q):
+  s = 0
+  for i in range(p):
+    s = s + leaf(i, q)
+  return s
+
+@deco('one')
+@deco(
+    'two')
+def top(p, q):
+  if p > 2:
+    return {1: 1}[q]
+  return mid(p, q)
+
+def f(x, n, b, xs):
+  a = top(n, x)
+  return a
+'''),
     ('err:raised_in_nested_functions', '''def f(x, n, b, xs):
   table = {0: 1, 1: 2}
   def scale(p):
